@@ -77,7 +77,7 @@ def C02(tier):
     ]
     return dict(models=models, stages=stages, nontrivial=sort_nontrivial, exhaustive=True,
                 rule="every complete behaviour (pattern, index or request list, pivot sequence) of MC_Select_emit / MC_Bulk_emit "
-                     "replayed through the scripted pivot hook, plus randomized lanes (<= 96 elements, request lists <= 32) with real "
+                     "replayed through the scripted pivot hook, plus randomized lanes (<= 40 / 64 elements, request lists <= 8 / 32) with real "
                      "RNG pivots and first/last/middle/scripted pivot policies; non-trivial = lane of >= 2 elements",
                 assumptions=SORT_ASSUME, trusted=["rank projection of lane contents (sort + dedup)", "the pivot hook (cfg ndarray_stats_verif)"])
 
